@@ -77,7 +77,7 @@ class Obligation:
             # counter-models that only exist with out-of-range "bytes")
             i = z3.Int("i!rng")
             for n, t in self.inputs.items():
-                if z3.is_seq(t) and not z3.is_string(t):
+                if z3.is_seq(t) and not z3.is_string(t) and t.sort() == BytesS:
                     s.add(z3.ForAll([i], z3.Implies(z3.And(0 <= i, i < z3.Length(t)), z3.And(t[i] >= 0, t[i] < 256))))
         return s.to_smt2()
 
@@ -103,6 +103,51 @@ class State:
         if c is True or (z3.is_bool(c) and z3.is_true(c)):
             return
         self.pc.append(c)
+
+
+def _conjuncts(c):
+    if z3.is_and(c):
+        for ch in c.children():
+            yield from _conjuncts(ch)
+    else:
+        yield c
+
+
+def instantiate_foralls(pc, terms):
+    out = []
+    for c in pc:
+        for q in _conjuncts(c):
+            if z3.is_quantifier(q) and q.is_forall() and q.num_vars() == 1 and q.var_sort(0) == IntS:
+                for t in terms:
+                    out.append(z3.substitute_vars(q.body(), t))
+    return out
+
+
+_quant_cache = {}
+
+
+def has_quantifier(c):
+    k = c.get_id()
+    if k in _quant_cache:
+        return _quant_cache[k]
+    seen = set()
+    stack = [c]
+    found = False
+    while stack:
+        t = stack.pop()
+        i = t.get_id()
+        if i in seen:
+            continue
+        seen.add(i)
+        if z3.is_quantifier(t):
+            found = True
+            break
+        if z3.is_app(t) and t.decl().kind() == z3.Z3_OP_RECURSIVE if hasattr(z3, "Z3_OP_RECURSIVE") else False:
+            found = True          # recursive definitions also slow the pruning solver down
+            break
+        stack.extend(t.children())
+    _quant_cache[k] = found
+    return found
 
 
 _fresh_counter = itertools.count()
@@ -139,6 +184,8 @@ def named_sv(name, kind):
         return sv_str(z3.String(name))
     if kind == "obj":
         return SV("obj", z3.Const(name, PyObj))
+    if kind == "objseq":
+        return SV("objseq", z3.Const(name, z3.SeqSort(PyObj)))
     raise Unsupported(f"named value of kind {kind}")
 
 
@@ -252,10 +299,12 @@ class FnExec:
 
     # ------------------------------------------------------------------ utilities
     def feasible(self, st):
+        """path pruning only: quantified facts are left out (over-approximation keeps more paths, which is sound)"""
         self._feas.push()
         try:
             for c in st.pc:
-                self._feas.add(c)
+                if not has_quantifier(c):
+                    self._feas.add(c)
             r = self._feas.check()
         finally:
             self._feas.pop()
@@ -268,8 +317,22 @@ class FnExec:
             goal = z3.BoolVal(goal)
         if use:
             st = st.clone()
-            for lem, inst in use:
-                st.assume(self.eng.lemma_instance(self, lem, inst, st))
+            for u in use:
+                if u[0] == "__inst__":
+                    # explicit instances of universally quantified facts already in the path condition
+                    # (sound: each added formula is implied by a formula of the pc)
+                    for f in instantiate_foralls(st.pc, u[1]):
+                        st.assume(f)
+                elif u[0] == "__hint__":
+                    # proof hint: first an obligation of its own (assert), then an assumption
+                    full_h = f"{self.qualname}/hint@{self.cur_line}[{u[2][:40]}]"
+                    key_h = (full_h, hash(tuple(c.hash() for c in st.pc)), u[1].hash())
+                    if key_h not in self.dedupe:
+                        self.dedupe.add(key_h)
+                        self.obls.append(Obligation(full_h, st.pc, u[1], "hint", self.qualname, lineno, dict(self.inputs)))
+                    st.assume(u[1])
+                else:
+                    st.assume(self.eng.lemma_instance(self, u[0], u[1], st))
         full = f"{self.qualname}/{name}"
         key = (full, hash(tuple(c.hash() for c in st.pc)), goal.hash())
         if key in self.dedupe:
@@ -395,6 +458,19 @@ class FnExec:
 
     def inst_uses(self, uses, st, res):
         out = []
+        for h in getattr(self.c, "hints", []) or []:
+            try:
+                out.append(("__hint__", self.truth(self.ev_spec(h, st, result=res)), h))
+            except (Unsupported, KeyError):
+                continue
+        terms = []
+        for e in getattr(self.c, "inst_terms", []) or []:
+            try:
+                terms.append(self.as_int(self.ev_spec(e, st, result=res), st))
+            except (Unsupported, KeyError):
+                continue
+        if terms:
+            out.append(("__inst__", terms))
         for lem, inst in uses or []:
             try:
                 out.append((lem, {k: self.ev_spec(e, st, result=res) for k, e in inst.items()}))
@@ -448,6 +524,9 @@ class FnExec:
             return self.eng.spec.obj_truth(self, v.t)
         if k in ("ref", "rec", "func"):
             return z3.BoolVal(True)
+        r = self.eng.spec._plug("truth_hook", self, v)
+        if r is not None:
+            return r
         raise Unsupported(f"truth of {k}")
 
     def as_int(self, v, st, what="int operand"):
@@ -761,7 +840,9 @@ class FnExec:
 
     def havoc(self, st, names, refs):
         for n in names:
-            if n in st.env and st.env[n].kind in ("int", "bool", "bytes", "str", "obj"):
+            if n in st.env and st.env[n].kind == "arr":
+                st.env[n] = SV("arr", fresh(n, st.env[n].t.sort()))
+            elif n in st.env and st.env[n].kind in ("int", "bool", "bytes", "str", "obj"):
                 v = fresh_sv(n, st.env[n].kind)
                 if v.kind == "bytes":
                     self.assume_byte_range(st, v.t)
@@ -769,7 +850,9 @@ class FnExec:
             elif n in st.env and st.env[n].kind == "tuple":
                 raise Unsupported(f"havoc of tuple variable {n}")
         for (key, attr), v in list(st.heap.items()):
-            if key in refs and v.kind in ("int", "bool", "bytes", "str", "obj"):
+            if key in refs and v.kind == "arr":
+                st.heap[(key, attr)] = SV("arr", fresh(f"{key}.{attr}", v.t.sort()))
+            elif key in refs and v.kind in ("int", "bool", "bytes", "str", "obj"):
                 nv = fresh_sv(f"{key}.{attr}", v.kind)
                 if nv.kind == "bytes":
                     self.assume_byte_range(st, nv.t)
@@ -813,6 +896,8 @@ class FnExec:
             st.env[kname] = sv_int(0)
             if spec.index:
                 st.ghost[spec.index] = st.env[kname]
+        for g, e in spec.ghost_init.items():
+            st.ghost[g] = self.ev_spec(e, st)
         # 1. invariant holds on entry
         for label, inv in spec.inv:
             self.oblige(st, f"{lname}.init[{label}]", self.truth(self.ev_spec(inv, st)), "loop-init", node.lineno)
@@ -825,6 +910,10 @@ class FnExec:
         self.havoc(hs, names, refs)
         if it is not None:
             hs.assume(hs.env[kname].t >= 0)
+            if length is not None:
+                # iteration protocol: the index never exceeds the length (re-checked at the end of the body
+                # against the length in THAT state, so a body that shrinks the sequence is caught)
+                hs.assume(hs.env[kname].t <= length)
             if spec.index:
                 hs.ghost[spec.index] = hs.env[kname]
         for g in spec.ghost_update:
@@ -862,6 +951,9 @@ class FnExec:
                         for g, e in spec.ghost_update.items():
                             st5.ghost[g] = self.ev_spec(e, st5)
                         self.paths += 1
+                        if it is not None and length is not None:
+                            length2, _ = self.iter_model(it, st5)
+                            self.oblige(st5, f"{lname}.index-bound", st5.env[kname].t <= length2, "loop-preserve", node.lineno)
                         uses = self.inst_uses(spec.use, st5, None)
                         for label, inv in spec.inv:
                             self.oblige(st5, f"{lname}.preserve[{label}]", self.truth(self.ev_spec(inv, st5)),
@@ -936,6 +1028,9 @@ class FnExec:
                 return
         if self.is_spec and n == "result":
             raise Unsupported("`result` is not defined here")
+        if self.is_spec and any(n in getattr(p, "SPEC_CONSTS", ()) for p in self.eng.spec.plugins):
+            yield st, self.eng.spec.call(self, n, [], st)
+            return
         yield st, self.resolve_global(n)
 
     def resolve_global(self, n, mi=None):
@@ -968,6 +1063,8 @@ class FnExec:
             return SV("func", ("builtin", self.import_name(imp)))
         if self.eng.spec.has(n):
             return SV("func", ("spec", n))
+        if self.is_spec and n not in ("len", "int", "bool", "isinstance", "min", "max", "abs", "bytes", "str", "divmod"):
+            raise Unsupported(f"unknown name {n} in a spec expression")
         return SV("func", ("builtin", n))
 
     def import_name(self, imp):
@@ -1350,6 +1447,8 @@ class FnExec:
             return z3.BoolVal(a.t == b.t)
         if ka == kb == "ref":
             return z3.BoolVal(a.t == b.t)
+        if ka == kb and ka in ("arr", "objseq"):
+            return a.t == b.t
         if {ka, kb} <= {"int", "bool", "bytes", "str", "tuple", "const"}:
             return z3.BoolVal(False)
         raise Unsupported(f"== between {ka} and {kb}")
@@ -1432,6 +1531,9 @@ class FnExec:
                 self.assumption("A-BYTES")
             yield st, sv_int(seq.t[i])
             return
+        if seq.kind == "objseq":
+            yield st, SV("obj", seq.t[self.as_int(idx, st)])
+            return
         if seq.kind == "tuple":
             ci = concrete_int(self.as_int(idx, st))
             if ci is None:
@@ -1490,6 +1592,10 @@ class FnExec:
                 return
             yield st, SV("func", ("method", v, attr))
             return
+        r = self.eng.spec._plug("attr_hook", self, st, v, attr)
+        if r is not None:
+            yield from r
+            return
         raise Unsupported(f"attribute {attr} of {v.kind}")
 
     def e_Call(self, node, st):
@@ -1512,6 +1618,7 @@ class FnExec:
                 i = fresh(lam.args.args[0].arg, IntS)
                 st2 = st.clone()
                 st2.env[lam.args.args[0].arg] = sv_int(i)
+                st2.ghost[lam.args.args[0].arg] = sv_int(i)     # visible inside old(...) too
                 body = self.truth(self.ev_spec(lam.body, st2, self._result))
                 yield st, sv_bool(z3.ForAll([i], z3.Implies(z3.And(lo <= i, i < hi), body)))
                 return
@@ -1623,8 +1730,10 @@ class FnExec:
         for g, e in c.ghost.items():
             cst.ghost[g] = sub.ev_spec(e, cst)
         # 1. preconditions
+        pre_uses = self.inst_uses(self.c.use, st, None) if c.requires else []
         for name, r in c.requires:
-            self.oblige(st, f"call@{node.lineno}:{q}.requires[{name}]", sub.truth(sub.ev_spec(r, cst)), "call-pre", node.lineno)
+            self.oblige(st, f"call@{node.lineno}:{q}.requires[{name}]", sub.truth(sub.ev_spec(r, cst)), "call-pre",
+                        node.lineno, use=pre_uses)
         # 2. exceptional returns
         iff_conds = []
         for exc, kind, cond in c.raises:
